@@ -30,6 +30,9 @@ structure Ctx where
   einfo : Array (Option EInfo)
   defined : List QN                 -- names of `maps.elements` (for `##defined`)
   v11 : Bool
+  /-- proposed repair notes/fixes/C15-root-maxoccurs-zero.patch: `check_model` returns at once for
+      a root group with `maxOccurs = 0`.  `false` = the code as it is. -/
+  skipEmptyRoot : Bool := false
   deriving Inhabited
 
 section
@@ -250,8 +253,12 @@ def Ctx.outer : List (Nat × List Nat) → List Entry → Acc → CMResult
     | (acc, some err) => ⟨some err, acc.precs, acc.trace⟩
     | (acc, none) => Ctx.outer rest (dictSet d ⟨M.key e, e, cp⟩) acc
 
+/-- the particles `check_model` visits, with their paths -/
+def Ctx.visited (p : Particle) : List (Nat × List Nat) :=
+  if M.skipEmptyRoot && p.maxIsZero then [] else p.leafPaths []
+
 /-- M: `check_model(group)` -/
-def Ctx.checkModel (p : Particle) : CMResult := M.outer (p.leafPaths []) [] {}
+def Ctx.checkModel (p : Particle) : CMResult := M.outer (M.visited p) [] {}
 
 /-- verdict only -/
 def Ctx.accepts (p : Particle) : Bool := (M.checkModel p).err.isNone
@@ -259,9 +266,10 @@ def Ctx.accepts (p : Particle) : Bool := (M.checkModel p).err.isNone
 end
 
 /-- the `Ctx` of a particle tree with the given per-element information -/
-def mkCtx (v11 : Bool) (n : Nat) (nodes : List (Nat × Node)) (infos : List (Nat × EInfo)) (defined : List QN) : Ctx :=
+def mkCtx (v11 : Bool) (n : Nat) (nodes : List (Nat × Node)) (infos : List (Nat × EInfo)) (defined : List QN)
+    (skipEmptyRoot : Bool := false) : Ctx :=
   { A := mkArena n nodes
     einfo := infos.foldl (fun a (i, x) => a.setIfInBounds i (some x)) (Array.replicate n none)
-    defined, v11 }
+    defined, v11, skipEmptyRoot }
 
 end XsVerif.CM
